@@ -228,6 +228,25 @@ def check_weights(rep, prog):
     okq = 'pos_neg_spectra = np.squeeze(self.spectra[self.gammas == gammapos1, :Nneg])' in t and 'neg_pos_spectra = np.squeeze(self.spectra[:Nneg, self.gammas == gammapos2])' in t and \
         'pos_neg_weights = np.trapz(weights, self.neg_gammas, axis=0)' in t and 'neg_pos_weights = np.trapz(weights, self.neg_gammas, axis=1)' in t and \
         'pos_pos = self.spectra[self.gammas == gammapos1, self.gammas == gammapos2][0]' in t and 'neg_neg = self.integrate(biv_params, ns, biv_seldist, 1, pts)' in t
+    if not okq:
+        # the same facts read off the fully written-out expressions (temporaries, aliases of self.neg_gammas and named masks inlined)
+        from sa.srcmodel import clone as _clone
+
+        def written_out(name):
+            e = sing.get(name)
+            if e is None:
+                return None
+            for _ in range(8):
+                e2 = inline(_clone(e), {k_: v_ for k_, v_ in sing.items() if k_ != name})
+                if ast.unparse(e2) == ast.unparse(e):
+                    break
+                e = e2
+            return ast.unparse(e).replace(' ', '').replace('numpy.', 'np.')
+        pn, np_, pp, nn = written_out('pos_neg'), written_out('neg_pos'), written_out('pos_pos'), written_out('neg_neg')
+        if all(x is not None for x in (pn, np_, pp, nn)):
+            okq = 'self.spectra[self.gammas==gammapos1,:' in pn and 'gammapos2' not in pn and 'axis=0)[:,np.newaxis,np.newaxis]*' in pn and pn.endswith(',self.neg_gammas,axis=0)') and \
+                re.search(r'self\.spectra\[:[^,\]]+,self\.gammas==gammapos2\]', np_) is not None and 'gammapos1' not in np_ and 'axis=1)[:,np.newaxis,np.newaxis]*' in np_ and np_.endswith(',self.neg_gammas,axis=0)') and \
+                pp == 'self.spectra[self.gammas==gammapos1,self.gammas==gammapos2][0]' and re.fullmatch(r'self\.integrate\((biv_params|params\[:-4\]),ns,biv_seldist,1,pts\)', nn) is not None
     rep.ob('R-IDX', 'Cache2D.integrate_point_pos quadrants', okq, 'pos/neg quadrants take the point-mass row/column of their own population and the marginal of the other', m2.rel, fn.lineno,
            what='positive selection in population k uses gammapos_k on axis k; the other axis is integrated with the marginal weights')
     un = [n for n in own_nodes(fn) if isinstance(n, ast.Assign) and isinstance(n.targets[0], ast.Tuple) and ast.unparse(n.value) == 'params[-4:]']
